@@ -1,9 +1,16 @@
 //! `vh` - conformance harness binding the TLA+ specifications in /verif/spec to the
 //! implementation in /repo.  `vh replay <kind>`: spec -> impl; `vh record <kind>`: impl -> spec.
+#![allow(dead_code)]
 mod common;
+mod constraints_replay;
 mod doubles;
+mod feature_replay;
+mod geom_replay;
+mod kalman_replay;
+mod nms_replay;
 mod store_replay;
 mod track_replay;
+mod voting_replay;
 
 fn main() {
     // panics in code under test are data; keep stderr quiet
@@ -17,6 +24,12 @@ fn main() {
     match (args[0].as_str(), args[1].as_str()) {
         ("replay", "store") => store_replay::main(&opts),
         ("replay", "track") => track_replay::main(&opts),
+        ("replay", "geom") => geom_replay::main(&opts),
+        ("replay", "nms") => nms_replay::main(&opts),
+        ("replay", "feature") => feature_replay::main(&opts),
+        ("replay", "kalman") => kalman_replay::main(&opts),
+        ("replay", "constraints") => constraints_replay::main(&opts),
+        ("replay", "voting") => voting_replay::main(&opts),
         (a, b) => {
             eprintln!("vh: unknown command {} {}", a, b);
             std::process::exit(2);
